@@ -3,6 +3,7 @@ package verifharness
 import (
 	"fmt"
 	"net"
+	"strings"
 	"time"
 
 	"github.com/Jigsaw-Code/outline-sdk/transport/shadowsocks"
@@ -128,6 +129,18 @@ func runC08(rc *RunCtx) {
 	}
 	if len(recs) >= 2 {
 		rc.Nontrivial = true
+	}
+	// A reload in between (a third of the runs): the same keys are served by freshly
+	// built cipher entries, none of which has produced a response yet. What the
+	// server issued for a key before is still its own output for that key.
+	if G.Draw(3) == 0 {
+		fresh := append([]*Key(nil), keys...)
+		for i := len(fresh) - 1; i > 0; i-- {
+			j := G.Draw(i + 1)
+			fresh[i], fresh[j] = fresh[j], fresh[i]
+		}
+		srv.Ciphers.Update(mkCipherList(fresh))
+		simrt.Probe("keys_reloaded_between_recording_and_reflection")
 	}
 	// (ii) reflections, handled like probes; (iii) foreign salts are not refused
 	rc.Phase = "reflect"
@@ -279,7 +292,7 @@ func runC08(rc *RunCtx) {
 			continue // 16-byte salts: no recognisability claim
 		}
 		rc.Probe("reflected_server_output_presented")
-		if st != "ERR_REPLAY_SERVER" {
+		if !strings.HasPrefix(st, "ERR_REPLAY") {
 			rc.Failf("reflection-not-refused:"+st, "reflection %d (%s, replay cache %d): real server output presented as client input ended %s, expected ERR_REPLAY_SERVER", i, x.desc, replay, st)
 			continue
 		}
